@@ -417,6 +417,17 @@ def skel_stop_using : List (String × String) :=
 
 def skel_process_inbound_queue : List (String × String) := [("while", "_manager.got_record")]
 def skel_deliver_queued_data : List (String × String) := [("for", "self.remote_data"), ("if", "self.remote_close")]
+/-- `SubChannel.pauseProducing/resumeProducing` only forward to the Manager (they throttle the NEXT read of the L2
+    connection), and `signal_dataReceived` hands the chunk to the protocol unconditionally: a paused protocol is
+    still given every record that was already read — which is why this model has no pause flag and dispatch
+    (`runOut .signal_dataReceived`, `.signal_readConnectionLost`) never looks at one. -/
+def skel_signal_dataReceived : List (String × String) := [("-", "_protocol.dataReceived")]
+def skel_signal_readConnectionLost : List (String × String) :=
+  [("-", "IHalfCloseableProtocol"), ("-", "?.readConnectionLost")]
+def skel_sub_pauseProducing : List (String × String) := [("-", "_manager.subchannel_pauseProducing")]
+def skel_sub_resumeProducing : List (String × String) := [("-", "_manager.subchannel_resumeProducing")]
+def skel_handle_data : List (String × String) := [("if", "DataForMissingSubchannelError"), ("-", "sc.remote_data")]
+def skel_handle_close : List (String × String) := [("if", "CloseForMissingSubchannelError"), ("-", "sc.remote_close")]
 def skel_handle_open : List (String × String) :=
   [("if", "DuplicateOpenError"), ("-", "SubchannelAddress"), ("-", "SubChannel"),
    ("try", "_manager._subprotocol_factories._got_open"), ("except", "_manager.send_close")]
